@@ -124,6 +124,16 @@ def _expected_params(spec):
         ([a["va"]] if a.get("va") else []) + ([a["vk"]] if a.get("vk") else [])
 
 
+def _has_posonly(spec):
+    if spec.get("fn") and spec["fn"]["args"].get("po"):
+        return True
+    for blk in spec["blocks"]:
+        for ins in blk:
+            if ins[0] == "const" and isinstance(ins[1], dict) and _has_posonly(ins[1]):
+                return True
+    return False
+
+
 @op("c03")
 def op_c03(args):
     spec = args["spec"]
@@ -141,11 +151,13 @@ def _c03_check(L, spec, cd, flat, v, where):
     has_none_line = any(f[3] is None for f in flat) or "None" in repr([b for b in spec["blocks"]])
     if has_none_line:
         v.features["none_lines"] += 1
+    posonly_on_37 = V < (3, 8) and _has_posonly(spec)
     try:
         code = cd.to_code()
     except NotImplementedError as e:
-        if V < (3, 8) and spec.get("fn") and spec["fn"]["args"].get("po"):
-            raise Reject("positional-only parameters on 3.7 (documented guard)")
+        if posonly_on_37:
+            v.features["posonly_refused_on_37"] += 1
+            return False   # the documented guard: refused, nothing silently dropped
         v.violate("to_code_raises", exc_sig(e), "%s: %s" % (where, exc_detail(e)))
         return False
     except Exception as e:
@@ -156,6 +168,12 @@ def _c03_check(L, spec, cd, flat, v, where):
         return False
     if not isinstance(code, CodeType):
         v.violate("to_code_type", type(code).__name__, where)
+        return False
+    if posonly_on_37:
+        # 3.7 cannot express positional-only parameters: returning a code object means they were
+        # silently turned into ordinary parameters (the signature is not "as described")
+        v.violate("header", "posonly_silently_dropped_on_37", "%s: %r encoded with co_argcount=%d and no error"
+                  % (where, spec["fn"]["args"]["po"], code.co_argcount))
         return False
     us = refs.units(code.co_code)
     refs.check_units_against_dis(code, us)
@@ -415,6 +433,15 @@ def op_c03_edit(args):
         blk = list(cd.blocks[bi0])
         blk.insert(ii0, blk[ii0])
         new = dataclasses.replace(cd, blocks=cd.blocks[:bi0] + (tuple(blk),) + cd.blocks[bi0 + 1:])
+    elif kind == "colliding_overrides":
+        # two look-alike constants (== but different constant keys) pinned to the same fresh slot
+        pairs = [(1, True), (0.0, -0.0), (2, 2.0), (0, False), ((1,), (True,)), (1.0, True), (frozenset([0]), frozenset([False]))]
+        a, b = pairs[k % len(pairs)]
+        slot = max([getattr(i.arg, "_index_override", None) or 0 for blk in cd.blocks for i in blk
+                    if isinstance(i.arg, L.Constant)] + [len(c.co_consts) - 1]) + 1
+        i1 = L.Instruction("LOAD_CONST", L.Constant(a, slot), line_number=cd.first_line_number)
+        i2 = L.Instruction("LOAD_CONST", L.Constant(b, slot), line_number=cd.first_line_number)
+        new = dataclasses.replace(cd, blocks=((i1, i2) + cd.blocks[0],) + cd.blocks[1:])
     elif kind == "lone_override":
         # a hand-written operand with a dangling position
         ins = L.Instruction("LOAD_NAME", L.Name("dangling", edit.get("to", 5)), line_number=cd.first_line_number)
